@@ -40,7 +40,7 @@ def script_case(name, n, writers, acts, tr, seed):
 
 def trace_cfg(n, writers):
     return ("CONSTANTS\n  Nodes = {%s}\n  Writers = {%s}\n  MaxSect = 99\n  MaxVer = 60\n  DropBudget = 99\n"
-            "  DupBudget = 99\n  Filter = TRUE\n  ValueEq = TRUE\n  SoloTries = 99\nINIT TInit\nNEXT TNext0\n"
+            "  DupBudget = 99\n  Filter = TRUE\n  ValueEq = TRUE\n  SoloTries = 99\n  SplitPC = TRUE\nINIT TInit\nNEXT TNext0\n"
             "CHECK_DEADLOCK FALSE\n" % (", ".join(map(str, range(1, n + 1))), ", ".join(map(str, writers))))
 
 
